@@ -9,6 +9,7 @@ import (
 	"verif/seq/fw"
 	"verif/seq/props/c01"
 	"verif/seq/props/c02"
+	"verif/seq/props/c03"
 	"verif/seq/props/c04"
 	"verif/seq/props/c05"
 	"verif/seq/props/c06"
@@ -31,6 +32,7 @@ type entry struct {
 var table = map[string]entry{
 	"C01": {"exploration", c01.Run},
 	"C02": {"exploration", c02.Run},
+	"C03": {"exploration", c03.Run},
 	"C04": {"exploration", c04.Run},
 	"C05": {"exploration", c05.Run},
 	"C06": {"exploration", c06.Run},
